@@ -628,6 +628,10 @@ func (s *Store) resolveWritePath(name string) (string, error) {
 		if strings.HasPrefix(rel, "../") || rel == ".." {
 			return "", ErrPathTraversalDisallowed
 		}
+		// write to the path that is validated: an absolute name is taken as
+		// given, and its ".." elements would otherwise be resolved by the
+		// file system after the symbolic links before them
+		path = target
 		// the path must stay in the working directory after the symbolic
 		// links on it (for example left by an unpacked archive) are resolved
 		realBase, err := evalExistingPath(base)
